@@ -252,7 +252,10 @@ def prove_answerers(src_root, kind, ex: Explorer):
         calls = []
 
         def c_reply(it2, f, a, k):
-            calls.append(a[1:])
+            # (ticket, username, query), however they are passed
+            pos = list(a[1:])
+            vals = [pos[i] if i < len(pos) else k.get(nm) for i, nm in enumerate(('ticket', 'username', 'query'))]
+            calls.append(tuple(vals))
             return A.SimpleAwaitable(it2.aio, 'reply', lambda it3: None, yields=False)
         it.hooks[f'{SM}:SearchManager._query_shares_and_reply'] = c_reply
         before = dict(msg.attrs)
